@@ -2,10 +2,17 @@
 
 package corebgp
 
-import "net/netip"
+import (
+	"net/netip"
+	"sync"
+)
+
+type syncMutex = sync.Mutex
 
 func netipAddrOf(n NextHopPathAttr) netip.Addr          { return netip.Addr(n) }
 func netipAddrOfOrig(o OriginatorIDPathAttr) netip.Addr { return netip.Addr(o) }
 
 // c18u32At reads s[i] or 0 when i is out of range (never panics).
 func c18u32At(s []uint32, i int) uint32 { return verifAtU32(s, i) }
+
+func c20zeroMutex() (m syncMutex) { return }
